@@ -82,6 +82,9 @@ type DB struct {
 	snaps      map[int]*memory.Database
 	onCommit   func(Commit)
 	onRead     func(op string, key []byte)
+
+	staged     int           // staged batch operations (Put/Delete/DeleteRange on any batch) seen so far
+	failStaged map[int]error // 1-based index of the staged operation that returns an error (and stages nothing)
 }
 
 // New returns a proxy over a fresh empty memory database.
@@ -90,6 +93,30 @@ func New() *DB { return Wrap(memory.New()) }
 // Wrap returns a proxy that owns inner (callers pass a Copy() if they want to keep theirs).
 func Wrap(inner *memory.Database) *DB {
 	return &DB{inner: inner, failAt: map[int]error{}, snapAt: map[int]bool{}, snaps: map[int]*memory.Database{}}
+}
+
+// FailStagedAt makes the k-th STAGED batch operation (a Put/Delete/DeleteRange on a batch, before any commit) return
+// err and stage nothing. Staged operations are numbered across all batches in call order.
+func (d *DB) FailStagedAt(k int, err error) {
+	d.mu.Lock()
+	if d.failStaged == nil {
+		d.failStaged = map[int]error{}
+	}
+	d.failStaged[k] = err
+	d.mu.Unlock()
+}
+
+// Staged is the number of staged batch operations seen so far.
+func (d *DB) Staged() int { d.mu.Lock(); defer d.mu.Unlock(); return d.staged }
+
+func (d *DB) stage() error {
+	d.mu.Lock()
+	defer d.mu.Unlock()
+	d.staged++
+	if err, ok := d.failStaged[d.staged]; ok {
+		return err
+	}
+	return nil
 }
 
 // Inner is the live underlying image.
@@ -240,9 +267,29 @@ type batch struct {
 	ops int
 }
 
-func (b *batch) Put(k, v []byte) error               { b.ops++; return b.b.Put(k, v) }
-func (b *batch) Delete(k []byte) error               { b.ops++; return b.b.Delete(k) }
-func (b *batch) DeleteRange(s, e []byte) error       { b.ops++; return b.b.DeleteRange(s, e) }
+func (b *batch) Put(k, v []byte) error {
+	if err := b.d.stage(); err != nil {
+		return err
+	}
+	b.ops++
+	return b.b.Put(k, v)
+}
+
+func (b *batch) Delete(k []byte) error {
+	if err := b.d.stage(); err != nil {
+		return err
+	}
+	b.ops++
+	return b.b.Delete(k)
+}
+
+func (b *batch) DeleteRange(s, e []byte) error {
+	if err := b.d.stage(); err != nil {
+		return err
+	}
+	b.ops++
+	return b.b.DeleteRange(s, e)
+}
 func (b *batch) Size() int                           { return b.b.Size() }
 func (b *batch) Close() error                        { return b.b.Close() }
 func (b *batch) Has(k []byte) (bool, error)          { return b.b.Has(k) }
